@@ -53,3 +53,13 @@ def client_streaming_void(case):
         if m.get("cs") and not m.get("ss") and m["output"] == ".google.protobuf.Empty":
             return True
     return False
+
+
+def request_in_other_subpackage(case):
+    api = _api(case)
+    pkgs = {f["package"] for f in api.get("files", [])}
+    for f, _s, m in M.all_methods(api):
+        ipkg = m["input"].rsplit(".", 1)[0].lstrip(".")
+        if ipkg != f["package"] and ipkg in pkgs:
+            return True
+    return False
